@@ -202,4 +202,25 @@ def rd (c impl : List String) : Option Verdict := do
            note := if ok then "" else
              "bracket (real socket): dial() returned an error after dialNDP succeeded and the file descriptor of the socket is still open" }
 
+/-- C11, opportunistic: `rdm ran adv ac0 | (g<v> | s<v>)* D (s<v>)* fdDelta` — the `State` calls of
+    the real `dial()` and of the connection's `done()` in either mode, against `dialFn`/`doneFn`
+    of the model with nothing failing. -/
+def rdm (c impl : List String) : Option Verdict := do
+  let (ran, adv, ac0) ← P.run (do let r ← P.bool; let a ← P.bool; let b ← P.bool; pure (r, a, b)) c
+  if !ran then
+    pure { model := "skip", oracle := true, nontrivial := false, note := "" }
+  else
+    let a : Attempt := { pre := .ok, get := .none, set := .none, task := .nil, rst := .none }
+    let dr := dialFn Gen.Dialer.dialLeaksConnOnAutoconfError adv 0 ac0 a
+    let dn := doneFn 0 dr.restore .none dr.ac
+    let stTok : Ev → Option String
+      | .getAutoconf v _ => some s!"g{boolTok v}"
+      | .setAutoconf v _ => some s!"s{boolTok v}"
+      | _ => none
+    let want := dr.evs.filterMap stTok ++ ["D"] ++ dn.evs.filterMap stTok ++ ["0"]
+    let ok := impl == want && dn.ac == ac0
+    pure { model := " ".intercalate want, oracle := ok, nontrivial := true,
+           note := if ok then "" else
+             "real dial()/done(): autoconfiguration must be read and disabled in Advertise mode only, restored to its previous value by done(), and the socket closed (no file descriptor left open)" }
+
 end Driver.Dialer
